@@ -198,7 +198,7 @@ fn run_direct(case: &Case, ctx: &mut Ctx) -> Result<(), Fail> {
                     let covered = case.mask & (1 << kind) != 0;
                     let expect = st.observe(now, case.timeout, covered);
                     let got = results.get(&(*k, *kind)).copied();
-                    let sig = if two_kinds { "recency-entry-shared-across-kinds" } else if expect { "kept-metric-dropped" } else { "idle-metric-not-dropped" };
+                    let sig = if expect { "kept-metric-dropped" } else if two_kinds { "recency-entry-shared-across-kinds" } else { "idle-metric-not-dropped" };
                     ensure!(got == Some(expect), sig, "step {} (t={} ns, timeout {:?}, mask {}): key {} kind {}: should_store returned {:?}, the reference machine says {}; case {:?}", si, now, case.timeout, case.mask, k, kind, got, expect, case);
                     let in_registry = match kind {
                         0 => registry.get_counter(&keys[*k]).is_some(),
